@@ -63,6 +63,13 @@ def run(ctx):
     cases = with_items(impl, cases_for(ctx))
     rows = ctx.correspond(impl, model, "c07_parse", cases, classify=classify,
                           nontrivial=lambda c, o: True, describe=describe)
+    comp = composed_sample(ctx, cases, limit=2500 if ctx.tier == "quick" else 40000)
+    ctx.correspond(impl, model, "c07_parse", comp, classify=classify, nontrivial=lambda c, o: True,
+                   describe=describe)
+    ctx.cov["composed_with_lexer_model"] = {
+        "cases": len(comp),
+        "note": "these cases carry no items: the model runner lexes the source with Lex/Fun.v (lex_all / lex_limited) and "
+                "parses the result, so lexer model + parser model composed are tied to the code as well"}
     fam = ctx.cov["families"]["c07_parse"]
     fam["accepted_without_error"] = sum(1 for _, i, _ in rows if i.startswith("ok noerr"))
     fam["rejected"] = sum(1 for _, i, _ in rows if i.startswith("ok err"))
@@ -78,7 +85,7 @@ def run(ctx):
         "input's significant tokens / the braced input is exactly one anonymous operation for the document parser.")
     ctx.cov["exhaustive"] = False
     ctx.assumptions += [
-        "interim tie: the model is fed the items the real lexer yields",
+        "most cases feed the parser model the items the real lexer yields (fast); a sample runs lexer model + parser model composed on the source string",
         "the field-set oracle uses the document parser as the reference for what one selection set is",
     ]
     return ctx.finish(props)
